@@ -71,6 +71,41 @@ def r1_leapers(ctx):
             continue
         o = backs[0]
         ws = [e for e in o.events if e[0] == 'write']
+        # the same table filled by an index loop: `for i in 0..64 { table[i] = <targets of square 1 << i> }` (slot function possibly a helper)
+        upd = [(l, t_) for l, t_ in (o.locals or {}).items() if isinstance(t_, tuple) and t_[0] == 'upd' and t_[1] == 'idx' and t_[2][0] == 'lv' and t_[2][2] == l]
+        rets_ = [x for x in outs if x.kind == 'return']
+        if not ws and len(upd) == 1 and len(rets_) == 1 and rets_[0].value == upd[0][1][2]:
+            l, t_ = upd[0]
+            I, V = t_[3], t_[4]
+            head = [e for e in o.events if e[0] == 'loop_head' and e[2] == t_[2][1]]
+            rng = [v for v in (head[0][3].values() if head else []) if isinstance(v, tuple) and v[0] == 'call' and v[1].endswith('into_iter')
+                   and v[2] and v[2][0][0] == 'agg' and str(v[2][0][2]).endswith('Range')]
+            Is = strip_cast(I)
+            from_range = Is[0] == 'fld' and Is[2] == 'Some.0' and Is[1][0] == 'call' and Is[1][1].endswith('::next')
+            bounds_ok = False
+            if len(rng) == 1:
+                f_ = dict(rng[0][2][0][4])
+                try:
+                    lo_ = ev(f_['start'], {})
+                    hi_t = f_['end']
+                    hi_ = 64 if (hi_t[0] == 'call' and hi_t[1].endswith('::len') and '64' in show(hi_t)) else ev(hi_t, {})
+                    bounds_ok = (lo_, hi_) == (0, 64)
+                except (Unevaluable, KeyError):
+                    bounds_ok = False
+            bad = []
+            try:
+                for i in range(64):
+                    got = ev(V, {Is: i, I: i})
+                    want = geom(i, deltas)
+                    if got != want:
+                        bad.append((sq_name(1 << i), sorted(sq_name(1 << x) for x in range(64) if (got ^ want) >> x & 1)))
+            except Unevaluable as e:
+                ctx.anchor_missing(rule, fname, 'term not evaluable: %s' % show(e.args[0])[:120])
+                continue
+            ctx.ob(rule, fname, '%s targets of slot i = the %d on-board displacements of square 1<<i (64 squares)' % (piece, len(deltas)),
+                   not bad and from_range and bounds_ok, found={'differing squares (origin: symmetric difference)': bad[:4], 'index runs over 0..64': bounds_ok and from_range},
+                   expected='exact geometric relation, no wrap-around', why='a missing or wrong wrap mask makes pieces jump across the board edge')
+            continue
         if not ws:
             ctx.anchor_missing(rule, fname, 'no table write in the loop body')
             continue
